@@ -76,3 +76,17 @@ package plugin
 //@ func Lookup(arg string) (Plugin, error)
 //@   trusted
 //@   ensures result1 == nil ==> result0 != nil
+
+// ParseCompactArguments ("name:key1=val1,key2,..."): the text before the first colon is the name; the rest is cut at
+// the commas and every piece becomes one option, in order: the piece before its first "=" is the option's name, the
+// rest its value (empty when there is no "="). Nothing is dropped, merged or reordered.
+//@ pure func optName(a string) string { return ite(indexOf(a, "=") >= 0, a[:indexOf(a, "=")], a) }
+//@ pure func optDesc(a string) string { return ite(indexOf(a, "=") >= 0, a[indexOf(a, "=")+1:], "") }
+
+//@ func ParseCompactArguments(str string) (*Desc, error)
+//@   ensures str == "" ==> result1 != nil && result0 == nil
+//@   ensures str != "" ==> result1 == nil && result0 != nil && fresh(result0)
+//@   ensures str != "" && indexOf(str, ":") == -1 ==> result0.Name == str && len(result0.Options) == 0
+//@   ensures str != "" && indexOf(str, ":") >= 0 ==> result0.Name == str[:indexOf(str, ":")] && len(result0.Options) == len(strings.Split(str[indexOf(str, ":")+1:], ","))
+//@   ensures str != "" && indexOf(str, ":") >= 0 ==> forall k int :: 0 <= k && k < len(result0.Options) ==> result0.Options[k].Name == optName(strings.Split(str[indexOf(str, ":")+1:], ",")[k]) && result0.Options[k].Desc == optDesc(strings.Split(str[indexOf(str, ":")+1:], ",")[k])
+//@   loop 1 invariant desc != nil && fresh(desc) && len(desc.Options) == $i && forall k int :: 0 <= k && k < $i ==> desc.Options[k].Name == optName($xs[k]) && desc.Options[k].Desc == optDesc($xs[k])
